@@ -34,6 +34,7 @@ type caseC18 struct {
 	Execute   bool
 	Sync      bool
 	Async     bool
+	Trailing  []string // arguments written after the file name (flags there are positional arguments to Go's flag package)
 }
 
 type cliResult struct {
@@ -56,7 +57,7 @@ func runCLI(h *harness.H, dir string, c *caseC18) cliResult {
 	}
 	ctx, cancel := context.WithTimeout(context.Background(), 20*time.Second)
 	defer cancel()
-	cmd := exec.CommandContext(ctx, bin, append(append([]string{}, c.Flags...), file)...)
+	cmd := exec.CommandContext(ctx, bin, append(append(append([]string{}, c.Flags...), file), c.Trailing...)...)
 	cmd.Dir = dir
 	var so, se bytes.Buffer
 	cmd.Stdout, cmd.Stderr = &so, &se
@@ -111,6 +112,18 @@ func checkC18(h *harness.H, ci interface{}) *harness.Failure {
 	if r.status == -1 {
 		h.S.InfraProblem("cannot run bin/grits")
 		return &harness.Failure{Inconclusive: true}
+	}
+	if len(c.Trailing) > 0 {
+		// anything after the file name is refused ("found extra arguments") before the file is even
+		// read: whatever stands there - `--noexecute` included - nothing may run
+		h.S.Count("trailing_arguments")
+		if r.status == 0 {
+			return harness.Failf("arguments after the file name (%s), yet the command exits with status 0\n%s", strings.Join(c.Trailing, " "), desc())
+		}
+		if labels := printedLabels(r.stdout); len(labels) > 0 {
+			return harness.Failf("arguments after the file name (%s), yet program output was produced\n%s", strings.Join(c.Trailing, " "), desc())
+		}
+		return nil
 	}
 	shouldPass := c.Class != "missing" && c.ParseOK && (!c.Typecheck || c.CheckOK)
 	willRun := shouldPass && c.Execute && (c.Sync || c.Async)
@@ -290,6 +303,18 @@ func genC18(rt *rapid.T, h *harness.H) interface{} {
 	}
 	c.Flags = append(c.Flags, flagSets[d.Pick(len(flagSets), "tc")]...)
 	c.Flags = append(c.Flags, execSets[d.Pick(len(execSets), "ex")]...)
+	if d.Chance(30, "moreflags") {
+		// both spellings of a switch, each in any form, in any order (the last occurrence of one flag
+		// wins; the two flags of a switch are combined as documented: run iff execute and not noexecute)
+		pool := []string{"--execute", "--execute=false", "--execute=true", "--noexecute", "--noexecute=false", "--noexecute=true", "-noexecute",
+			"--typecheck", "--typecheck=false", "--notypecheck", "--notypecheck=false", "-typecheck=true"}
+		for i, n := 0, d.Int(1, 3, "nmore"); i < n; i++ {
+			c.Flags = append(c.Flags, d.Of(pool, "moreflag"))
+		}
+	}
+	if d.Chance(10, "trailing") {
+		c.Trailing = []string{d.Of([]string{"--noexecute", "--execute=false", "--notypecheck", "other.grits", "x", "--sync"}, "trailingarg")}
+	}
 	ms := modeSets[d.Pick(len(modeSets), "mode")]
 	c.Flags = append(c.Flags, ms...)
 	c.Flags = append(c.Flags, verbSets[d.Pick(len(verbSets), "verb")]...)
